@@ -60,7 +60,27 @@ def _bin_events(chunk):
                 continue  # 0 is not a coordinate of the 1-based closed convention
             b = bins(s, e, fmt=fmt)
             ev.append(["bin", s, e, off, b if isinstance(b, int) else -1])
+            if (s + e) % 5 == 0:
+                # the same coordinates as the integer scalars they arrive in from arrays and tables
+                ty = _np_types()[(s + e) // 5 % len(_np_types())] if _np_types() else None
+                if ty is not None and 0 <= s <= e < 2 ** 31 - 2:
+                    b = bins(ty(s), ty(e), fmt=fmt)
+                    ev.append(["bin", s, e, off, int(b) if isinstance(b, (int, _np_integer())) and not isinstance(b, bool) else -1])
     return ev
+
+
+def _np_types():
+    try:
+        import numpy as np
+    except Exception:
+        return []
+    return [np.int64, np.int32, np.uint32]
+
+
+def _np_integer():
+    import numpy as np
+
+    return np.integer
 
 
 def _set_events(chunk):
@@ -78,6 +98,9 @@ def _set_events(chunk):
                 pass
             first = bins(s, e, fmt="gff" if off else "bed", one=False)
         ev.append(["set", s, e, off, sorted(first)])
+        if (s + e) % 7 == 0 and _np_types() and 0 <= s <= e < 2 ** 31 - 2:
+            ty = _np_types()[(s + e) // 7 % 3]
+            ev.append(["set", s, e, off, sorted(int(x) for x in bins(ty(s), ty(e), fmt="gff" if off else "bed", one=False))])
     return ev
 
 
